@@ -486,6 +486,28 @@ def r20g(model: Model, rr: RuleResult):
                           and cfg.dominates(cfg.node_for(lp), cfg.node_for(st))]
                 if claims:
                     counter = k
+    if counter is None:
+        for lp in loops:
+            # probe and claim in one step: `while reg.setdefault((k, name), src) != src: k += 1`
+            incs = [b for b in lp.body if isinstance(b, ast.AugAssign) and isinstance(b.op, ast.Add) and isinstance(b.target, ast.Name) and norm(b.value) == "1"]
+            t = norm(lp.test).replace(" ", "")
+            if len(incs) == 1 and len(lp.body) == 1 and f".setdefault(({incs[0].target.id},{src}.name),{src})!={src}" in t:
+                counter = incs[0].target.id
+    if counter is None:
+        # `k = next(n for n in itertools.count() if reg.get((n, name), src) == src)` followed by the claim
+        for st in walk_body(fi):
+            if isinstance(st, ast.Assign) and len(st.targets) == 1 and isinstance(st.targets[0], ast.Name) and isinstance(st.value, ast.Call) and norm(st.value.func) == "next" \
+                    and len(st.value.args) == 1 and isinstance(st.value.args[0], ast.GeneratorExp) and len(st.value.args[0].generators) == 1:
+                ge = st.value.args[0]
+                g0 = ge.generators[0]
+                n_ = norm(g0.target)
+                if norm(ge.elt) == n_ and norm(g0.iter) in ("itertools.count()", "count()", "itertools.count(0)", "count(0)") and len(g0.ifs) == 1 \
+                        and norm(g0.ifs[0]).replace(" ", "").endswith(f".get(({n_},{src}.name),{src})=={src}"):
+                    k = st.targets[0].id
+                    claims = [c_ for c_ in walk_body(fi) if isinstance(c_, ast.Assign) and norm(c_.targets[0]).replace(" ", "").replace("(", "").replace(")", "").endswith(f"[{k},{src}.name]")
+                              and norm(c_.value) == src and cfg.dominates(cfg.node_for(st), cfg.node_for(c_))]
+                    if claims:
+                        counter = k
     if counter:
         rr.ok(f"slot registry: `{counter}` is advanced until ({counter}, name) is free or already owned by this source, then claimed: one slot per distinct source")
     ext = [st for st in walk_body(fi) if isinstance(st, ast.Assign) and len(st.targets) == 1 and norm(st.targets[0]) == "out_dir"
@@ -495,11 +517,15 @@ def r20g(model: Model, rr: RuleResult):
     for st in ext:
         e = st.value.right
         names, exprs = expr_closure(cfg, cfg.node_for(st), e)
-        if counter and names - {"str", "int", "repr", "format"} == {counter}:
+        direct = {m.id for m in ast.walk(e) if isinstance(m, ast.Name)}
+        if counter and (names - {"str", "int", "repr", "format"} == {counter} or direct - {"str", "int", "repr", "format"} == {counter}):
             rr.ok(f"`{short(st)}`: the sub-directory is the claimed slot number")
             continue
         lossy = [n for x in exprs for n in ast.walk(x) if isinstance(n, ast.Attribute) and n.attr in ("name", "stem", "suffix", "parent", "parts", "parents")
                  and src in {m.id for m in ast.walk(n) if isinstance(m, ast.Name)}]
+        probes = [n for x in exprs for n in ast.walk(x) if isinstance(n, ast.Call) and callee_tail(n) in ("get", "setdefault", "count")]
+        if lossy and probes:
+            raise AnalysisError(f"_dest_for_src: disambiguator {short(e)} comes out of a registry probe that is not one of the enumerated idioms")
         if lossy:
             rr.bad(fi, st, f"`{short(st)}` tells same-named sources apart by {short(lossy[0])}, which different sources can share (light/svg/x.svg and regular/svg/x.svg): "
                    f"their intermediates collide, the de-duplicated edge is built once and every later master/configuration silently gets the first one's artwork",
